@@ -64,6 +64,15 @@ def handle_keep_alive(E):
         E.prove('keepalive:answer_has_no_respond_flag', E.getattr(g, 'flags_respond') is False)
         E.prove('keepalive:answer_carries_the_same_data', E.getattr(g, 'data') is data)
         E.prove('keepalive:answer_on_stream_0_with_same_position', E.getattr(g, 'stream_id') == 0 and E.getattr(g, 'last_received_position') is pos)
+        # answers wait in the send queue: a later KEEPALIVE must not change an answer that is already queued
+        data2 = E.fresh_bytes('kdata2')
+        pos2 = E.fresh_int('position2', 0, (1 << 63) - 1)
+        f2 = frame(E, 'KeepAliveFrame', 0, flags_respond=True, data=data2, last_received_position=pos2)
+        E.await_value(E.call(E.getattr(sock, 'handle_keep_alive'), [f2]))
+        E.prove('keepalive:each_answer_keeps_its_own_data[an earlier answer still queued is not overwritten by a later one]',
+                len(sent) == 2 and sent[1] is not sent[0] and E.getattr(sent[0], 'data') is data
+                and E.getattr(sent[0], 'last_received_position') is pos and E.getattr(sent[1], 'data') is data2
+                and E.getattr(sent[1], 'flags_respond') is False)
     else:
         E.prove('keepalive:without_respond_flag_never_answered', len(sent) == 0)
     if role == CLIENT:
@@ -305,7 +314,9 @@ def setup_first(E):
     sock, table, ctable = mk_client(E, _honor_lease=False, _lease_publisher=None, _setup_payload=None, _request_queue_size=0,
                                     _keep_alive_period=aio.mk_timedelta(E, 500000), _max_lifetime_period=aio.mk_timedelta(E, 600000000),
                                     _data_encoding=b'a/b', _metadata_encoding=b'c/d', _is_closing=False, _connecting=True,
-                                    _keepalive_task=None, _is_server_alive=True)
+                                    _keepalive_task=None,
+                                    # whatever ended the previous connection: after a keepalive timeout the flag is False
+                                    _is_server_alive=[True, False][E.path.choice(2, 'previous-connection-ended-by-keepalive-timeout')])
     E.import_module('datetime')
     E.path.ghost['now'] = I(E.fresh_int('now'))
     nt = aio.new_future(E)
@@ -321,6 +332,10 @@ def setup_first(E):
         setup_at_head = len(q) >= 1 and is_frame(q[0], 'SetupFrame')
         if nt.attrs['state'] == 'result' and not setup_at_head and state['violated'] is None:
             state['violated'] = where
+        # the sender and receiver loops run as soon as the transport future is resolved and exit at once unless the
+        # endpoint considers the server alive: the flag must be set before the future resolves, not after
+        if nt.attrs['state'] == 'result' and sock.attrs.get('_is_server_alive') is not True and state.get('dead') is None:
+            state['dead'] = where
     log = OpaqueLog(E, returns={'__anext__': lambda *a: aio.Awaitable('provider'),
                                 'connect': lambda *a: aio.Awaitable('transport.connect') if suspends_connect else aio.Awaitable('ready')})
 
@@ -355,6 +370,8 @@ def setup_first(E):
             len([x for x in q if is_frame(x, 'LeaseFrame')]) == state.get('leases', 0) and is_frame(q[0], 'SetupFrame'))
     E.prove('connect:at_every_suspension_transport_resolved_implies_SETUP_queued[%s]' % ('transport.connect() suspends' if suspends_connect else 'transport.connect() does not suspend'),
             state['violated'] is None)
+    E.prove('@C17:connect:whenever_the_new_tasks_can_run_the_server_is_considered_alive[also after a keepalive timeout]',
+            state.get('dead') is None and sock.attrs.get('_is_server_alive') is True)
     E.prove('connect:transport_future_resolved_with_the_provided_transport', nt.attrs['state'] == 'result' and nt.attrs['value'] is transport)
     E.prove('connect:transport_connected_once', len(log.of(transport, 'connect')) == 1)
 
@@ -567,7 +584,7 @@ def client_close(E):
 RCV = BASE + '._receiver'
 
 
-@harness('c11.receiver_exit', ['C11', 'C07'], functions=[RCV, BASE + '._on_connection_closed'],
+@harness('c11.receiver_exit', ['C11', 'C07', 'C17'], functions=[RCV, BASE + '._on_connection_closed'],
          assumptions=['_receiver_listen is used through its exit behaviours: returns (EOF / not alive), raises RSocketTransportError, '
                       'is cancelled (CancelledError), or raises another Exception',
                       'RequestHandler.on_close is abstract'])
